@@ -16,6 +16,9 @@ struct GreaterBig { bool operator()(const Big& a, const Big& b) const { return a
 struct WeakBig { bool operator()(const Big& a, const Big& b) const { return a.v / 10 < b.v / 10; } };
 struct WeakInt { bool operator()(long long a, long long b) const { return a / 10 < b / 10; } };
 
+// the trees get comparator OBJECTS with run-time state (VF_Stateful, armed); a tree that default-constructs its own comparator orders in reverse
+using SLessLL = VF_Stateful<std::less<long long>>; using SGreaterLL = VF_Stateful<std::greater<long long>>; using SWeakInt = VF_Stateful<WeakInt>;
+using SLessBig = VF_Stateful<LessBig>; using SGreaterBig = VF_Stateful<GreaterBig>; using SWeakBig = VF_Stateful<WeakBig>;
 enum CmpKind { CLess = 0, CGreater = 1, CWeak = 2 };
 static long long conc(int cmp, long long rank, int salt) {
     switch (cmp) {
@@ -33,8 +36,8 @@ struct Runner {
         long long sentinel = (cmpk == CGreater) ? conc(cmpk, 900, 0) : conc(cmpk, 90, 9);
         Tree* tp;
         V sentinel_obj(sentinel);       // the pointer variants keep its address
-        if constexpr (Guarded) tp = new Tree(k, Cmp());
-        else tp = new Tree(k, sentinel_obj, Cmp());
+        if constexpr (Guarded) tp = new Tree(k, Cmp(1));
+        else tp = new Tree(k, sentinel_obj, Cmp(1));
         Tree& t = *tp;
         std::vector<V> store; store.reserve(keys.size() + xs.size() + 4);
         int salt = 3;
@@ -67,24 +70,24 @@ template <bool Stable>
 static void run_all(Out& out, bool guarded, int k, const std::vector<long long>& keys, const std::vector<long long>& xs) {
     using namespace tlx;
     if (guarded) {
-        Runner<LoserTreeCopy<Stable, long long, std::less<long long>>, long long, true>::template run<std::less<long long>>(out, "Copy", CLess, Stable, k, keys, xs);
-        Runner<LoserTreeCopy<Stable, long long, std::greater<long long>>, long long, true>::template run<std::greater<long long>>(out, "Copy", CGreater, Stable, k, keys, xs);
-        Runner<LoserTreeCopy<Stable, long long, WeakInt>, long long, true>::template run<WeakInt>(out, "Copy", CWeak, Stable, k, keys, xs);
-        Runner<LoserTreePointer<Stable, Big, LessBig>, Big, true>::template run<LessBig>(out, "Pointer", CLess, Stable, k, keys, xs);
-        Runner<LoserTreePointer<Stable, Big, GreaterBig>, Big, true>::template run<GreaterBig>(out, "Pointer", CGreater, Stable, k, keys, xs);
-        Runner<LoserTreePointer<Stable, Big, WeakBig>, Big, true>::template run<WeakBig>(out, "Pointer", CWeak, Stable, k, keys, xs);
+        Runner<LoserTreeCopy<Stable, long long, SLessLL>, long long, true>::template run<SLessLL>(out, "Copy", CLess, Stable, k, keys, xs);
+        Runner<LoserTreeCopy<Stable, long long, SGreaterLL>, long long, true>::template run<SGreaterLL>(out, "Copy", CGreater, Stable, k, keys, xs);
+        Runner<LoserTreeCopy<Stable, long long, SWeakInt>, long long, true>::template run<SWeakInt>(out, "Copy", CWeak, Stable, k, keys, xs);
+        Runner<LoserTreePointer<Stable, Big, SLessBig>, Big, true>::template run<SLessBig>(out, "Pointer", CLess, Stable, k, keys, xs);
+        Runner<LoserTreePointer<Stable, Big, SGreaterBig>, Big, true>::template run<SGreaterBig>(out, "Pointer", CGreater, Stable, k, keys, xs);
+        Runner<LoserTreePointer<Stable, Big, SWeakBig>, Big, true>::template run<SWeakBig>(out, "Pointer", CWeak, Stable, k, keys, xs);
         // the size-selected aliases used by multiway_merge
-        Runner<LoserTree<Stable, long long, std::less<long long>>, long long, true>::template run<std::less<long long>>(out, "SwitchSmall", CLess, Stable, k, keys, xs);
-        Runner<LoserTree<Stable, Big, WeakBig>, Big, true>::template run<WeakBig>(out, "SwitchBig", CWeak, Stable, k, keys, xs);
+        Runner<LoserTree<Stable, long long, SLessLL>, long long, true>::template run<SLessLL>(out, "SwitchSmall", CLess, Stable, k, keys, xs);
+        Runner<LoserTree<Stable, Big, SWeakBig>, Big, true>::template run<SWeakBig>(out, "SwitchBig", CWeak, Stable, k, keys, xs);
     } else {
-        Runner<LoserTreeCopyUnguarded<Stable, long long, std::less<long long>>, long long, false>::template run<std::less<long long>>(out, "CopyU", CLess, Stable, k, keys, xs);
-        Runner<LoserTreeCopyUnguarded<Stable, long long, std::greater<long long>>, long long, false>::template run<std::greater<long long>>(out, "CopyU", CGreater, Stable, k, keys, xs);
-        Runner<LoserTreeCopyUnguarded<Stable, long long, WeakInt>, long long, false>::template run<WeakInt>(out, "CopyU", CWeak, Stable, k, keys, xs);
-        Runner<LoserTreePointerUnguarded<Stable, Big, LessBig>, Big, false>::template run<LessBig>(out, "PointerU", CLess, Stable, k, keys, xs);
-        Runner<LoserTreePointerUnguarded<Stable, Big, GreaterBig>, Big, false>::template run<GreaterBig>(out, "PointerU", CGreater, Stable, k, keys, xs);
-        Runner<LoserTreePointerUnguarded<Stable, Big, WeakBig>, Big, false>::template run<WeakBig>(out, "PointerU", CWeak, Stable, k, keys, xs);
-        Runner<LoserTreeUnguarded<Stable, long long, std::less<long long>>, long long, false>::template run<std::less<long long>>(out, "SwitchSmallU", CLess, Stable, k, keys, xs);
-        Runner<LoserTreeUnguarded<Stable, Big, WeakBig>, Big, false>::template run<WeakBig>(out, "SwitchBigU", CWeak, Stable, k, keys, xs);
+        Runner<LoserTreeCopyUnguarded<Stable, long long, SLessLL>, long long, false>::template run<SLessLL>(out, "CopyU", CLess, Stable, k, keys, xs);
+        Runner<LoserTreeCopyUnguarded<Stable, long long, SGreaterLL>, long long, false>::template run<SGreaterLL>(out, "CopyU", CGreater, Stable, k, keys, xs);
+        Runner<LoserTreeCopyUnguarded<Stable, long long, SWeakInt>, long long, false>::template run<SWeakInt>(out, "CopyU", CWeak, Stable, k, keys, xs);
+        Runner<LoserTreePointerUnguarded<Stable, Big, SLessBig>, Big, false>::template run<SLessBig>(out, "PointerU", CLess, Stable, k, keys, xs);
+        Runner<LoserTreePointerUnguarded<Stable, Big, SGreaterBig>, Big, false>::template run<SGreaterBig>(out, "PointerU", CGreater, Stable, k, keys, xs);
+        Runner<LoserTreePointerUnguarded<Stable, Big, SWeakBig>, Big, false>::template run<SWeakBig>(out, "PointerU", CWeak, Stable, k, keys, xs);
+        Runner<LoserTreeUnguarded<Stable, long long, SLessLL>, long long, false>::template run<SLessLL>(out, "SwitchSmallU", CLess, Stable, k, keys, xs);
+        Runner<LoserTreeUnguarded<Stable, Big, SWeakBig>, Big, false>::template run<SWeakBig>(out, "SwitchBigU", CWeak, Stable, k, keys, xs);
     }
 }
 
